@@ -98,7 +98,7 @@ Section Proofs.
     cbv zeta. rewrite FC, FP, FJ.
     rewrite <- create_of_slot, <- join_rule_of_slot.
     cbn [v_create v_pl_ev v_pl v_jr fst snd].
-    unfold abs. cbv zeta. cbn [ai_create ai_pl_present ai_pl ai_join_rule].
+    unfold abs. cbv zeta. cbn [ai_create ai_pl_present ai_pl ai_join_rule]. unfold pl_of_auths.
     destruct (create_of f auths) as [c|] eqn:C; simpl.
     - destruct (find_auth t_create [] auths) as [ce|] eqn:FCE.
       2:{ unfold create_of in C. rewrite FCE in C. discriminate. }
